@@ -5,6 +5,7 @@ CONSTANTS
   FullNode = FALSE
   Cap = 2
   Weaken = "loadNoHeight"
+  GapFix = FALSE
   Direct = FALSE
   Timeouts = FALSE
 INVARIANT RestartResumes
